@@ -191,8 +191,10 @@ class LoggerModel:
 
 
 class HandlerModel:
-    """a user supplied error handler (callable)"""
+    """a user supplied error handler (callable); nothing is known about its truth value (a callable object may
+    define __bool__ / __len__)"""
     __name__ = "HandlerModel"
+    truth_unknown = True
 
     @staticmethod
     def new(ex):
